@@ -191,6 +191,31 @@ func checkC11(c *Ctx, r *Report) {
 		}
 		cmp("reads", fl30, fl31, func(s string) string { return s })
 		cmp("calls", cl30, cl31, normEmitterCall)
+		// the siblings do their common steps in the same order: where two steps write the same
+		// place (components keyed by bare type name, responses keyed by status code) the later
+		// one wins, so a different order is a different document
+		{
+			o30, o31 := w.emitterStepOrder(f30, p30), w.emitterStepOrder(f31, p31)
+			pos31 := map[string]int{}
+			for i, n := range o31 {
+				pos31[n] = i
+			}
+			last, lastName := -1, ""
+			for _, n := range o30 {
+				j, common := pos31[n]
+				if !common {
+					continue
+				}
+				if j < last {
+					if _, tabled := dt.Only30[key]["order:"+lastName+">"+n]; !tabled {
+						viol = fmt.Sprintf("%s: 3.0 %s runs %s before %s, the 3.1 sibling %s the other way round: when both write the same entry (a component name, a status code) the documents keep different ones", w.pos(f30.Decl.Pos()), pr[0], lastName, n, pr[1])
+					}
+				}
+				if j > last {
+					last, lastName = j, n
+				}
+			}
+		}
 		// the siblings skip the same elements: conditions that guard a `continue`/early
 		// `return` inside their loops over IR collections, compared as atom sets
 		sk30, sk31 := w.loopSkipProfile(f30, p30), w.loopSkipProfile(f31, p31)
@@ -758,6 +783,47 @@ func checkConverters(c *Ctx, r *Report) {
 	}
 	r.count("converter_arms_30", len(m30))
 	r.count("converter_arms_31", len(m31))
+	checkParseHelpersAgree(c, r, "C11.b")
+}
+
+// checkParseHelpersAgree: the shared helpers the two converters parse rule values with read
+// numbers the same way - plain decimal, 64 bit. The 3.0 converter reads lengths with
+// ParseUInteger, the 3.1 one with ParseInteger: a helper that starts to accept other notations
+// (base 0: hex, octal, underscores) makes one dialect keep a bound the other drops.
+func checkParseHelpersAgree(c *Ctx, r *Report, clause string) {
+	w := c.W
+	viol := ""
+	var sites []string
+	n := 0
+	for _, name := range []string{"ParseNumber", "ParseInteger", "ParseUInteger", "ParseBool"} {
+		fi := need(c, r, clause, "generator/swagen/swagtool."+name)
+		if fi == nil {
+			continue
+		}
+		for _, cl := range callsIn(fi.SSA, true, func(n string) bool { return strings.HasPrefix(n, "strconv.Parse") }) {
+			n++
+			sites = append(sites, w.pos(cl.Pos()))
+			args := cl.Common().Args
+			want := map[string][]string{"strconv.ParseInt": {"", "10", "64"}, "strconv.ParseUint": {"", "10", "64"}, "strconv.ParseFloat": {"", "64"}, "strconv.ParseBool": {""}}[calleeName(cl)]
+			if want == nil {
+				viol = fmt.Sprintf("%s: %s parses with %s, which the sibling comparison does not know", w.pos(cl.Pos()), fi.Key, calleeName(cl))
+				continue
+			}
+			for i, wv := range want {
+				if wv == "" || i >= len(args) {
+					continue
+				}
+				k, isK := args[i].(*ssa.Const)
+				if !isK || k.Value == nil || k.Value.ExactString() != wv {
+					viol = fmt.Sprintf("%s: %s calls %s with argument #%d = %s instead of %s: it accepts other notations (or another width) than the helper the other dialect uses for the same rule, so a bound is kept in one document and dropped in the other", w.pos(cl.Pos()), fi.Key, calleeName(cl), i, args[i], wv)
+				}
+			}
+		}
+	}
+	if n < 4 {
+		viol = fmt.Sprintf("expected the four strconv calls of the swagtool parse helpers, found %d", n)
+	}
+	r.add(clause, "sibling", "parse-helpers:decimal-64bit", "ParseNumber / ParseInteger / ParseUInteger / ParseBool read rule values in plain decimal, 64 bit: interchangeable between the dialects", []string{"generator/swagen/swagtool"}, sites, viol)
 }
 
 // checkValidationSites (C11.d): the usage-site converter is applied under the same guards
@@ -1015,5 +1081,49 @@ func (w *World) loopSkipProfileLocal(fi *FuncInfo, ownPkg string) map[string]str
 		}
 	}
 	walk(fi.Decl.Body, false, nil)
+	return out
+}
+
+// emitterStepOrder: the emitter-package functions fi calls (by sibling-normalised name), in
+// source order of their first call; calls inside new helpers count where the helper is called.
+func (w *World) emitterStepOrder(fi *FuncInfo, ownPkg string) []string {
+	type step struct {
+		pos  token.Pos
+		name string
+	}
+	var steps []step
+	seen := map[string]bool{}
+	for _, rf := range w.astRegion(fi) {
+		rf := rf
+		if rf.Decl.Body == nil {
+			continue
+		}
+		ast.Inspect(rf.Decl.Body, func(n ast.Node) bool {
+			cl, ok := n.(*ast.CallExpr)
+			if !ok {
+				return true
+			}
+			name := calleeOfCall(rf.Pkg.TypesInfo, cl)
+			if !strings.HasPrefix(name, ownPkg+".") || w.isNewName(name) {
+				return true
+			}
+			nn := normEmitterCall("<emitter>." + strings.TrimPrefix(name, ownPkg+"."))
+			if seen[nn] {
+				return true
+			}
+			seen[nn] = true
+			p := w.hostPos(fi, cl)
+			if !p.IsValid() {
+				p = cl.Pos()
+			}
+			steps = append(steps, step{p, nn})
+			return true
+		})
+	}
+	sort.Slice(steps, func(i, j int) bool { return steps[i].pos < steps[j].pos })
+	out := make([]string, len(steps))
+	for i, st := range steps {
+		out[i] = st.name
+	}
 	return out
 }
